@@ -7,6 +7,7 @@ from __future__ import annotations
 import copy
 import hashlib
 import math
+import os
 
 import numpy as np
 
@@ -55,7 +56,8 @@ EXPECTED_PROBES = ["partial_last_batch", "batch_larger_than_set", "grid_invert_b
                    "workload_A", "workload_B", "workload_C", "ratio_out_of_range", "train_empty",
                    "negative_control_differs", "val_split_in_loop", "reset_after_continue",
                    "seed_given_as_generator", "n_beyond_int16", "n_beyond_uint16", "fifth_epoch_or_later",
-                   "seed_ge_2_32", "soft_constraints_on", "tapped_after_warmup"]
+                   "seed_ge_2_32", "soft_constraints_on", "tapped_after_warmup",
+                   "same_seed_in_another_interpreter"]
 
 _ctx = {}
 
@@ -170,7 +172,10 @@ def gen(rng: Rng, tier, i):
             "seq": rng.pick([["R", "R"], ["R", "C", "R"], ["N", "R"], ["N", "C", "R"], ["R", "C", "C", "R"],
                              ["R", "R", "C", "R"], ["R", "R", "R"]]),
             "seed_as": rng.pick(["int", "int", "generator"]), "modes": rng.pick([1, 1, 2]),
-            "global_rng": rng.randrange(10 ** 6)}
+            "global_rng": rng.randrange(10 ** 6),
+            # the same seeded recipe in ANOTHER interpreter session with another string-hash salt
+            # (PYTHONHASHSEED is a source of nondeterminism the seed must make irrelevant)
+            "other_interpreter": rng.fork("interp").pick([None] * 23 + [1, 31337])}
 
 
 # ------------------------------------------------------------------------------------------
@@ -427,6 +432,40 @@ def _record_batches(pt):
     return log
 
 
+def child_first_run(plan):
+    """Executed in a fresh interpreter (python -m qsim.c09child): run 1 of workload C."""
+    import torch
+
+    np.random.seed((plan.get("global_rng", 0) + 7919) % (2 ** 32))
+    torch.manual_seed(plan.get("global_rng", 0) + 104729)
+    pt = _build(plan, rng=plan["seed"], ratio=plan["ratio"], mode=plan["mode"],
+                n_modes=plan.get("modes", 1))
+    if plan.get("seed_as") == "generator":
+        pt.rng = np.random.default_rng(plan["seed"])
+    log = _record_batches(pt)
+    pt.reconstruct(reset=True, num_iters=plan["iters"], optimizer_params=_opt(plan["opt"], 1e-3),
+                   batch_size=plan["b"])
+    return {"losses": [float(x) for x in pt.iter_losses], "val": [float(x) for x in pt.val_iter_losses],
+            "seq": [np.asarray(x).tolist() for x in log]}
+
+
+def _other_interpreter(plan, hashseed):
+    import json
+    import subprocess
+    import sys
+
+    from .. import core
+
+    env = dict(os.environ, PYTHONHASHSEED=str(hashseed), VERIF_REPO=core.REPO,
+               PYTHONPATH=core.VERIF_DIR + os.pathsep + os.environ.get("PYTHONPATH", ""))
+    out = subprocess.run([sys.executable, "-m", "qsim.c09child"], input=json.dumps(plan), text=True,
+                         capture_output=True, env=env, cwd=core.VERIF_DIR, timeout=600)
+    lines = [ln for ln in out.stdout.splitlines() if ln.startswith("RESULT ")]
+    if out.returncode != 0 or not lines:
+        raise HarnessError(f"other-interpreter run failed (rc {out.returncode}): {out.stderr[-400:]}")
+    return json.loads(lines[-1][7:])
+
+
 def _run_C(plan, res, viol):
     bump(res["probes"], "workload_C")
     if plan["seed"] >= 2 ** 32:
@@ -488,6 +527,20 @@ def _run_C(plan, res, viol):
              f"the batches seen by the forward model in an epoch are not an exact partition "
              f"({len(S1)} batches for {plan['iters']} epochs, train {T}/{n_all})",
              "loop_not_exact_partition")
+    if plan.get("other_interpreter"):
+        bump(res["probes"], "same_seed_in_another_interpreter")
+        o = _other_interpreter({k: v for k, v in plan.items() if k != "run_seed"},
+                               plan["other_interpreter"])
+        So = [np.asarray(x, dtype=int) for x in o["seq"]]
+        if not same_seq(S1, So):
+            viol("seeded_schedule_differs", f"the same seed in another interpreter session "
+                 f"(PYTHONHASHSEED={plan['other_interpreter']}) saw a different batch sequence "
+                 f"(first batches {S1[0].tolist()[:8]} vs {So[0].tolist()[:8] if So else None})",
+                 "seeded_schedule_differs:other_interpreter")
+        elif not np.allclose(L1, np.asarray(o["losses"]), rtol=1e-6, atol=0) or not np.allclose(
+                V1, np.asarray(o["val"]), rtol=1e-6, atol=0):
+            viol("seeded_history_differs", f"the same seed in another interpreter session: losses "
+                 f"{L1.tolist()} vs {o['losses']}", "seeded_history_differs:other_interpreter")
     if plan["variant"] in ("two_instances", "both"):
         p2, l2 = fresh(plan["seed"])
         L2, V2, S2 = run(p2, l2)
